@@ -152,6 +152,23 @@ Fixpoint env_put (e : bytes) (m : list bytes) : list bytes :=
 Definition env_map (l : list bytes) (m0 : list bytes) : list bytes :=
   fold_left (fun m e => env_put e m) l m0.
 
+(* the entry stored under a key in the Go map *)
+Fixpoint find_key (k : bytes) (m : list bytes) : option bytes :=
+  match m with
+  | [] => None
+  | x :: r => if bytes_eqb (key_of x) k then Some x else find_key k r
+  end.
+
+(* the last entry of a YAML list with a given key: later entries of the same list shadow earlier ones *)
+Fixpoint last_with_key (k : bytes) (l : list bytes) : option bytes :=
+  match l with
+  | [] => None
+  | e :: r => match last_with_key k r with
+              | Some x => Some x
+              | None => if bytes_eqb (key_of e) k then Some e else None
+              end
+  end.
+
 Fixpoint insert_sorted (e : bytes) (l : list bytes) : list bytes :=
   match l with
   | [] => [e]
@@ -246,43 +263,44 @@ Definition resolve_wd (dir : bytes) (g : project) : project :=
             (map_vals (resolve_wd_proc dir) (g_procs g)).
 
 (* ---------- files, extends --------------------------------------------------------------------------------- *)
-(* a configuration file: its (absolute, cleaned) name as an identifier, its directory, what it says,
-   and the file named by its `extends` option *)
-Inductive cfile := CFile (name : N) (dir : bytes) (cfg : project) (parent : option cfile).
-Definition f_name (f : cfile) := let '(CFile n _ _ _) := f in n.
-Definition f_dir (f : cfile) := let '(CFile _ d _ _) := f in d.
-Definition f_cfg (f : cfile) := let '(CFile _ _ c _) := f in c.
-Definition f_parent (f : cfile) := let '(CFile _ _ _ p) := f in p.
+(* a configuration file: its (absolute, cleaned) name as an identifier, its directory, what it says.
+   `extends` chains are linear, so a file named on the command line comes with the list of the files it
+   extends: parent, grandparent, ... (nearest first) *)
+Record cfile := mkFile { f_name : N; f_dir : bytes; f_cfg : project }.
+Definition xfile := (cfile * list cfile)%type.
 
 Definition insert_at {A} (i : nat) (x : A) (l : list A) : list A := firstn i l ++ x :: skipn i l.
 Definition memN (x : N) (l : list N) : bool := existsb (N.eqb x) l.
 
-(* loadExtendProject(p, opts, file, index): None = "project ... is already specified in files to load" *)
-Fixpoint load_extends (f : cfile) (index : nat) (st : list N * list project)
+Definition resolve_file (c : cfile) : cfile := mkFile (f_name c) (f_dir c) (resolve_wd (f_dir c) (f_cfg c)).
+
+(* loadExtendProject(p, opts, file, index) along the chain of ancestors;
+   None = "project ... is already specified in files to load" *)
+Fixpoint load_extends (anc : list cfile) (index : nat) (st : list N * list project)
   : option (list N * list project) :=
-  match f with
-  | CFile _ _ _ None => Some st
-  | CFile _ _ _ (Some par) =>
+  match anc with
+  | [] => Some st
+  | par :: r =>
       if memN (f_name par) (fst st) then None
-      else load_extends par index
+      else load_extends r index
              (insert_at index (f_name par) (fst st),
-              insert_at index (resolve_wd (f_dir par) (f_cfg par)) (snd st))
+              insert_at index (f_cfg (resolve_file par)) (snd st))
   end.
 
 (* the loop of Load over the ORIGINAL file list; idx counts positions of that list *)
-Fixpoint load_loop (files : list cfile) (idx : nat) (st : list N * list project)
+Fixpoint load_loop (files : list xfile) (idx : nat) (st : list N * list project)
   : option (list N * list project) :=
   match files with
   | [] => Some st
-  | f :: r =>
-      match load_extends f idx st with
+  | (f, anc) :: r =>
+      match load_extends anc idx st with
       | None => None
       | Some (names, projs) => load_loop r (S idx) (names, projs ++ [f_cfg f])
       end
   end.
 
-Definition load_projects (files : list cfile) : option (list project) :=
-  match load_loop files 0 (map f_name files, []) with
+Definition load_projects (files : list xfile) : option (list project) :=
+  match load_loop files 0 (map (fun x => f_name (fst x)) files, []) with
   | Some (_, ps) => Some ps
   | None => None
   end.
@@ -356,7 +374,7 @@ Definition post (defshell : leaf) (g : project) : project :=
 
 (* Load, projected to the modelled fields.  None: an error before the merge (extends of a file that is
    already in the list). *)
-Definition load (defshell : leaf) (files : list cfile) : option project :=
+Definition load (defshell : leaf) (files : list xfile) : option project :=
   match load_projects files with
   | Some ps => match merge_all ps with Some g => Some (post defshell g) | None => None end
   | None => None
